@@ -385,7 +385,7 @@ Definition refutation_witnesses : list (opn * list val) :=
     (ORem, [VFix 5; VFix 0]);                                          (* rem by zero: Go runtime fault *)
     (OMod, [VFix 5; VFix 0]);                                          (* arithmetic-error, not division-by-zero *)
     (ORound Truncate, [VFix (-9223372036854775808); VFix (-1)]);       (* quotient wraps *)
-    (OCmp CEq, [VBig 590295810358705651712; VRat 1180591620717411303425 2]);    (* 2^69 = 2^69 + 1/2 through float64 *)
+    (OCmp CLt, [VBig 590295810358705651712; VRat 1180591620717411303425 2]);    (* 2^69 < 2^69 + 1/2 is false through float64 (= is exact since slip repair C16-11) *)
     (OBit BAnd, [VBig B; VFix 1]) ].                                   (* small result of the bignum loop stays a bignum *)
 Lemma outside_guard_refuted :
   forallb (fun w => refuted (fst w) (snd w)) refutation_witnesses = true /\
